@@ -9,6 +9,8 @@ def check(rr) -> list:
     if rr.status != 'ok':
         return []
     out = []
+    info = rr.info = getattr(rr, 'info', {})
+    C.reach_probes(rr, info)
     out += C.check_liveness(rr)
     if out and out[0]['cls'] == 'HANG':
         # a hang makes every later check noise; but report runtime errors
